@@ -32,7 +32,7 @@ def _fix(lo, width, v):
 
 
 def obligations(tier, seed):
-    t = 400 if tier == 'quick' else 3000
+    t = 240 if tier == 'quick' else 3000
     # quick explores a seeded quarter of each grammar index space (two middle index bits pinned by the seed)
     q = ['b9 == %s' % bool(seed & 1), 'b8 == %s' % bool(seed & 2)] if tier == 'quick' else []
     n = 2 if tier == 'quick' else 3
